@@ -5,5 +5,5 @@ CONSTANTS
   Masks <- MasksQ
   DataOf <- Data
 SPECIFICATION Spec
-INVARIANTS TypeOK Consistent Answerable LevelPersists OneshotSilent EdgeSilent UnregisteredSilent
+INVARIANTS TypeOK Consistent Answerable LevelPersists OneshotSilent EdgeSilent UnregisteredSilent ClosedSilent
 CHECK_DEADLOCK FALSE
